@@ -7,3 +7,7 @@
 ; noHist(r): the datasource has no history for relation r (what its NotFound verdict on the error of a
 ; RelationHistory call for r means)
 (declare-fun noHist (Int) Bool)
+
+; walkCalls: number of entries into (*ChildFirstOrdering).walk so far (incremented by the `entrycount` ghost
+; statement of its contract); lets the member loop say "this relation member was walked"
+; ghost walkCalls Int
